@@ -163,6 +163,12 @@ impl Prop for C15 {
                         if y.exit != Some(1) || !y.stdout.is_empty() { o.oracle_fail = Some(("tamper-evident".into(), format!("`kestrel key change-pass` on a locked key with {} (new password {}): exit {:?}, printed {:?} — a string that does not unlock was accepted and handed back as a good key", what, if newpw == *p { "the same as the old one" } else { "different" }, y.exit, String::from_utf8_lossy(&y.stdout).trim().chars().take(40).collect::<String>()))); return o; }
                     }
                 }
+                // control in the other direction: the EMPTY password is a password — a key locked under it unlocks with it, through every command
+                let carol = &fx.carol; let want = format!("PublicKey = {}", carol.enc_pk);
+                let x = run_kestrel(&World { files: vec![], env: vec![("KESTREL_PASSWORD".into(), "".into())], stdin: vec![] }, &sv(&["key", "extract-pub", &carol.enc_sk, "--env-pass"])); o.validated += 1;
+                if x.exit != Some(0) || String::from_utf8_lossy(&x.stdout).trim() != want { o.oracle_fail = Some(("right-password-unlocks".into(), format!("a key locked under the empty password: `kestrel key extract-pub --env-pass` with KESTREL_PASSWORD set to the empty string: exit {:?} ({}), printed {:?}", x.exit, x.stderr.trim(), String::from_utf8_lossy(&x.stdout).trim()))); return o; }
+                let y = run_kestrel(&World { files: vec![], env: vec![("KESTREL_PASSWORD".into(), "".into()), ("KESTREL_NEW_PASSWORD".into(), "next".into())], stdin: vec![] }, &sv(&["key", "change-pass", &carol.enc_sk, "--env-pass"])); o.validated += 1;
+                if y.exit != Some(0) { o.oracle_fail = Some(("right-password-unlocks".into(), format!("a key locked under the empty password: `kestrel key change-pass --env-pass` with the empty old password: exit {:?} ({})", y.exit, y.stderr.trim()))); return o; }
                 o.impl_obs = format!("{} altered keys / wrong passwords refused by extract-pub and change-pass", variants.len()); o.model_obs = "unlock fails".into();
             }
             "env-bytes" => {
